@@ -843,7 +843,7 @@ func (t *Term) ref() string {
 	case OpConst:
 		return constLit(t.W, t.Val)
 	case OpVar:
-		return "|" + t.Name + "|"
+		return fmt.Sprintf("|%s@%d|", t.Name, t.W)
 	}
 	return fmt.Sprintf("t%d", t.ID)
 }
@@ -859,7 +859,7 @@ func (t *Term) body() string {
 	case OpSext:
 		fmt.Fprintf(&sb, "((_ sign_extend %d) %s)", t.Hi, t.Args[0].ref())
 	case OpSelect:
-		fmt.Fprintf(&sb, "(|%s| %s)", t.Name, t.Args[0].ref())
+		fmt.Fprintf(&sb, "(|arr:%s| %s)", t.Name, t.Args[0].ref())
 	default:
 		sb.WriteString("(")
 		sb.WriteString(opNames[t.Op])
